@@ -403,6 +403,28 @@ func runC18(r *Run) {
 		c18Pair(r, val.Just(types.Str, a), val.Just(types.Str, b), false)
 		r.Count("pair:escape-spelling")
 	}
+	// optionals whose element type nests object types with the inner fields declared in different orders (the type text is
+	// part of an optional's rendering)
+	{
+		in1 := types.Obj([]types.Field{{Name: "a", Val: types.Num}, {Name: "b", Val: types.Num}})
+		in2 := types.Obj([]types.Field{{Name: "b", Val: types.Num}, {Name: "a", Val: types.Num}})
+		mid := func(in *types.Type) *types.Type {
+			return types.Obj([]types.Field{{Name: "in", Val: in}, {Name: "z", Val: types.Str}})
+		}
+		deep := func(in *types.Type) *types.Type {
+			return types.Obj([]types.Field{{Name: "l", Val: types.List(mid(in))}, {Name: "m", Val: types.Map(types.Str, types.Maybe(in))}})
+		}
+		c18ForceLang = true
+		for _, mk := range []func(*types.Type) *types.Type{mid, deep, func(in *types.Type) *types.Type { return types.List(mid(in)) }, func(in *types.Type) *types.Type { return types.Maybe(mid(in)) }} {
+			c18Pair(r, val.Nothing(mk(in1)), val.Nothing(mk(in2)), true)
+			o1 := mkObj(types.Obj([]types.Field{{Name: "m", Val: types.Maybe(mk(in1))}}), val.Nothing(mk(in1)))
+			o2 := mkObj(types.Obj([]types.Field{{Name: "m", Val: types.Maybe(mk(in2))}}), val.Nothing(mk(in2)))
+			c18Pair(r, o1, o2, true)
+			c18Pair(r, mkList(o1.Type, o1), mkList(o2.Type, o2), true)
+			r.Count("pair:optional-of-nested-objects")
+		}
+		c18ForceLang = false
+	}
 	// composites whose renderings coincide once the quotes around strings are dropped (a set keyed by the string()
 	// conversion instead of the canonical rendering would merge them)
 	{
